@@ -350,6 +350,8 @@ func (a *Emitter) Label(name string) uint32 {
 	a.labels[name] = a.address
 
 	if a.generateText {
+		// a pending base directive precedes everything issued after SetBase:
+		a.emitBase()
 		a.lines = append(a.lines, asmLine{
 			asmLineType: lineLabel,
 			address:     a.address,
